@@ -165,6 +165,8 @@ def ppart(p):
 
 
 def render(case):
+    if "text" in case:                      # kind realworld: the text as found in the workflow file
+        return case["text"]
     return "".join(ppart(p) for p in case["parts"])
 
 
@@ -349,14 +351,113 @@ def ok_s(br, s):
     return False
 
 
-def in_fragment(case):
-    if case.get("lib"):
+def hoist_vars(ss):
+    out = []
+    for s in ss:
+        if s[0] in ("var", "vari"):
+            out.append(s[1])
+        elif s[0] == "if":
+            out += hoist_vars(s[2]) + hoist_vars(s[3])
+    return out
+
+
+def may_inpB(L, e):
+    k = e[0]
+    if k == "id":
+        return e[1] not in L
+    if k == "paren":
+        return may_inpB(L, e[1])
+    if k == "cond":
+        return may_inpB(L, e[2]) or may_inpB(L, e[3])
+    if k == "assign":
+        return may_inpB(L, e[2])
+    return False
+
+
+def okb_e(L, e):
+    k = e[0]
+    if k in ("num", "str", "bool"):
+        return True
+    if k == "id":
+        return e[1] in L or e[1] == "inputs"
+    if k == "dot":
+        return okb_e(L, e[1]) and ((e[2] not in RESERVED_ALL) if e[1][0] == "id" else not may_inpB(L, e[1]))
+    if k == "idx":
+        if not okb_e(L, e[1]):
+            return False
+        return good_key(e[2]) if e[1][0] == "id" else ((not may_inpB(L, e[1])) and okb_e(L, e[2]))
+    if k == "add":
+        return okb_e(L, e[1]) and okb_e(L, e[2])
+    if k == "cond":
+        return okb_e(L, e[1]) and okb_e(L, e[2]) and okb_e(L, e[3])
+    if k == "paren":
+        return okb_e(L, e[1])
+    if k == "assign":
+        return e[1] in L and okb_e(L, e[2]) and not may_inpB(L, e[2])
+    if k == "call":
+        return e[1][0] == "id" and all(okb_e(L, a) and not may_inpB(L, a) for a in e[2])
+    return False
+
+
+def okb_s(top, L, s):
+    k = s[0]
+    if k == "var":
+        return s[1] in L
+    if k == "vari":
+        return s[1] in L and okb_e(L, s[2]) and not may_inpB(L, s[2])
+    if k == "expr":
+        return okb_e(L, s[1])
+    if k == "ret":
+        return okb_e(L, s[1]) and not may_inpB(L, s[1])
+    if k == "if":
+        return okb_e(L, s[1]) and all(okb_s(False, L, x) for x in s[2]) and all(okb_s(False, L, x) for x in s[3])
+    if k == "fun":
+        Lf = list(s[2]) + hoist_vars(s[3])
+        return top and all(okb_s(False, Lf, x) for x in s[3]) and "inputs" not in Lf
+    return False
+
+
+def in_fragmentF(lib, body):
+    prog = list(lib) + list(body)
+    L = hoist_vars(prog)
+    return all(okb_s(True, L, s) for s in prog) and "inputs" not in L
+
+
+def _body(p):
+    return p[1] if p[0] == "js" else [["ret", ["paren", p[1]]]]
+
+
+def in_fragment_alias(case):
+    """C31_sound_partial: no library, every JS part function-free with tracked aliasing."""
+    if case.get("lib") or case.get("parts") is None:
         return False
+    return all(all(ok_s(False, s) for s in _body(p)) for p in case["parts"] if p[0] in ("js", "jsx"))
+
+
+def in_fragment_funs(case):
+    """C31_sound_functions_partial for every JS part (with the library)."""
+    if case.get("parts") is None:
+        return False
+    return all(in_fragmentF(case.get("lib") or [], _body(p)) for p in case["parts"] if p[0] in ("js", "jsx"))
+
+
+def seg_key_nonempty(g):
+    return g[0] == "idx" or g[1].replace("\\'", "'").replace('\\"', '"') != ""
+
+
+def in_fragment(case):
+    """parts_in_fragment of Model.v (C31_sound_interpolation_partial): the union of the proved fragments."""
+    if case.get("parts") is None:           # realworld expression outside the modelled syntax
+        return False
+    lib = case.get("lib") or []
     for p in case["parts"]:
-        if p[0] == "js" and not all(ok_s(False, s) for s in p[1]):
-            return False
-        if p[0] == "jsx" and not ok_e(False, ["paren", p[1]]):
-            return False
+        if p[0] == "ref":
+            if p[1] == "inputs" and p[2] and (p[2][0][0] == "idx" or not seg_key_nonempty(p[2][0])):
+                return False
+        elif p[0] in ("js", "jsx"):
+            b = _body(p)
+            if not (in_fragmentF(lib, b) or (not lib and all(ok_s(False, s) for s in b))):
+                return False
     return True
 
 
@@ -496,6 +597,54 @@ class Gen:
         if ps_ and rng.random() < 0.3:        # shadowing: a parameter named like an alias (or inputs itself)
             ps_[0] = rng.choice(ctx.aliases) if ctx.aliases else "inputs"
         return ps_
+
+    def plain_fun(self, ctx):
+        """function f(p..) { .. } touching only its own parameters/vars and inputs.f (the proved function fragment)."""
+        rng = self.rng
+        name = self.fresh("f")
+        ps_ = [self.fresh("p") for _ in range(rng.randrange(0, 3))]
+        c = Ctx(["inputs"], list(ps_), list(ctx.funs))
+        body = []
+        for _ in range(rng.randrange(0, 3)):
+            r = rng.random()
+            if r < 0.45:
+                v = self.fresh("l")
+                body.append(["vari", v, self.g_str(c, 2)])
+                c.strs.append(v)
+            elif r < 0.7:
+                body.append(["if", self.g_any(c, 2), self.branch(c, 1), self.branch(c, 1)])
+            else:
+                body.append(["expr", self.g_any(c, 2)])
+        body.append(["ret", self.g_str(c, 1)])
+        ctx.funs.append((name, len(ps_)))
+        ctx.captured = True
+        return [["fun", name, ps_, body]]
+
+    def funfrag_case(self):
+        """A well-tracked program of the function fragment: library/body function declarations, no aliases."""
+        rng = self.rng
+        ctx = Ctx()
+        lib = []
+        if rng.random() < 0.5:
+            for _ in range(rng.randrange(1, 3)):
+                lib.extend(self.plain_fun(ctx))
+        body = []
+        for _ in range(rng.choice([0, 1, 2, 3, 4])):
+            r = rng.random()
+            if r < 0.3:
+                v = self.fresh("s")
+                body.append(["vari", v, self.g_str(ctx, 1)])
+                ctx.strs.append(v)
+            elif r < 0.4 and ctx.strs:
+                body.append(["expr", ["assign", rng.choice(ctx.strs), self.g_str(ctx, 1)]])
+            elif r < 0.55:
+                body.append(["if", self.g_any(ctx, 1), self.branch(ctx, 0), self.branch(ctx, 0)])
+            elif r < 0.8:
+                body.extend(self.plain_fun(ctx))
+            else:
+                body.append(["expr", self.g_any(ctx, 1)])
+        body.append(["ret", self.g_any(ctx, 0)])
+        return {"f": "safe", "lib": lib, "parts": [["js", body]]}
 
     def fun_decl(self, ctx, d):
         name = self.fresh("f")
@@ -662,8 +811,10 @@ class Gen:
                 if r_[2] and r_[2][0][0] == "idx":
                     r_[2][0] = ["dot", "a"]
                 parts.append(r_)
-            else:
+            elif r < 0.9:
                 parts.append(["jsx", self.g_str(Ctx(), 1)])
+            else:
+                parts.append(self.funfrag_case()["parts"][0] if False else ["js", [["ret", self.g_str(Ctx(), 1)]]])
         return {"f": "interp", "lib": [], "parts": parts}
 
 
@@ -733,7 +884,9 @@ class C31(Prop):
         while len(cases) < n:
             r = rng.random()
             g.n = 0
-            if r < 0.5:
+            if r < 0.12:
+                c = g.funfrag_case()
+            elif r < 0.5:
                 c = g.js_case("safe")
             elif r < 0.62:
                 r_ = g.ref()
@@ -778,7 +931,8 @@ class C31(Prop):
             def eval(self, scan, jslib="", **kw):
                 code = cwl_utils.sandboxjs.code_fragment_to_js(scan, jslib)
                 prop.node_busy = True
-                prop.node.stdin.write(json.dumps({"code": code, "inputs": INPUTS, "runtime": {"cores": 1}}) + "\n")
+                prop.node.stdin.write(json.dumps({"code": code, "inputs": INPUTS, "runtime": {"cores": 1},
+                                                  "universal": prop.universal}) + "\n")
                 prop.node.stdin.flush()
                 out = json.loads(prop.node.stdout.readline())
                 prop.node_busy = False
@@ -799,7 +953,8 @@ class C31(Prop):
             self.node.kill()
             self._node()
         text = render(c)
-        lib = [ps(s) for s in c.get("lib", [])]
+        lib = c["lib_text"] if "lib_text" in c else [ps(s) for s in c.get("lib", [])]
+        self.universal = c["f"] == "realworld"
         o = {"text": text}
         try:
             o["deps"] = sorted(self.cu.resolve_dependencies(text, full_js=True, expression_lib=lib or None))
@@ -839,6 +994,15 @@ class C31(Prop):
     def coq_case(self, c, o):
         if "crash" in o or "hang" in o or not _ascii_ok(json.dumps(c)):
             return None
+        real = c["f"] == "realworld"
+        if real:
+            st_ = self._real.setdefault(c["src"].split(":")[0], [0, 0, 0, 0])
+            st_[0] += 1
+            st_[1] += c.get("parts") is not None
+            st_[2] += in_fragment(c)
+            st_[3] += bool(o.get("ok"))
+            if c.get("parts") is None:
+                return None
         if "deps" in o:
             if not _ascii_ok(o["deps"]):
                 return None
@@ -850,33 +1014,48 @@ class C31(Prop):
         if str(o.get("eval_err", "")).startswith("JavascriptException:harness") or not _ascii_ok(o.get("reads", [])):
             e = "ONoEval"
         else:
-            e = f"(OEval {coq_bool(o['ok'])} " + coq_list([coq_str(x) for x in o["reads"]]) + ")"
+            e = (f"({'OReads' if real else 'OEval'} {coq_bool(o['ok'])} "
+                 + coq_list([coq_str(x) for x in o["reads"]]) + ")")
         frag = in_fragment(c)
         has_js = any(p[0] in ("js", "jsx") for p in c["parts"])
-        st_ = self._frag.setdefault(c["f"], [0, 0, 0])
+        st_ = self._frag.setdefault(c["f"], [0, 0, 0, 0, 0])
         st_[0] += 1
         st_[1] += has_js
         st_[2] += frag and has_js
-        return (f"CCase {css(c.get('lib', []))} {coq_list([cpart(p) for p in c['parts']])} "
+        st_[3] += has_js and in_fragment_alias(c)
+        st_[4] += has_js and in_fragment_funs(c)
+        return (f"CCase {css(c.get('lib') or [])} {coq_list([cpart(p) for p in c['parts']])} "
                 f"{cinputs()} {d} {e} {coq_bool(frag)}")
 
     _frag: dict = {}
+    _real: dict = {}
 
     def extra_samples(self):
-        tot = {k: {"cases": v[0], "with_js_part": v[1], "with_js_part_in_fragment_of_C31_sound_partial": v[2]}
+        tot = {k: {"cases": v[0], "with_js_part": v[1], "with_js_part_in_proved_fragment": v[2],
+                   "…of_C31_sound_partial(aliases,no functions)": v[3],
+                   "…of_C31_sound_functions_partial(functions,no aliases)": v[4]}
                for k, v in sorted(self._frag.items())}
-        return [{"fragment_membership": tot,
+        real = {k: {"expressions": v[0], "translated_to_the_model_AST": v[1], "in_proved_fragment": v[2],
+                    "evaluated_successfully_by_node(universal inputs)": v[3]} for k, v in sorted(self._real.items())}
+        return [{"realworld_expressions(repo = *.cwl under /repo; pkg = cwltool/tests + cwl_utils/testdata)": real,
+                 "fragment_membership": tot,
                  "note": "cases (per kind) that lie inside the syntactic fragment on which C31_sound_partial is proved; "
                          "the flag is recomputed by Corr.check_case with the model's in_fragment, and for those cases "
                          "check_case also requires observed reads <= observed deps and no analysis failure"}]
 
     def nontrivial(self, c):
+        if c.get("parts") is None:
+            return True
         return any(p[0] in ("js", "jsx") or (p[0] == "ref" and p[2]) for p in c["parts"])
 
     def signature(self, c, o, clause):
+        if c["f"] == "realworld":
+            return f"{clause}/realworld:{c['src'].split(':', 1)[1]}"
         return f"{clause}/{c['f']}"
 
     def shrink(self, c):
+        if c["f"] == "realworld":
+            return
         parts = c["parts"]
         if len(parts) > 1:
             for i in range(len(parts)):
